@@ -188,6 +188,36 @@ def parse_cbmc(text):
             "unknown": unknown, "stats": stats, "done": done}
 
 
+# Recursive std/derive code over the recursive enums ValueKind / Value (derived Hash, Clone, PartialEq, drop glue).  CBMC cannot
+# fold their niche-encoded discriminants during symbolic execution and would unroll these recursions to the harness'
+# loop bound in every direction.  They get their own, small recursion bound; like every bound it is guarded by an
+# unwinding assertion, so a value that really nests deeper makes the harness inconclusive, never a silent pass.
+REC_PATTERNS = [
+    (re.compile(r"(ValueKind|mech_core::Value\b|value::Value\b).*"), re.compile(r"hash|clone|drop_glue|drop_in_place|::eq|::ne|to_vec|fmt"), 3),
+]
+
+
+def recursion_limits(meta):
+    sym = meta["goto_file"]
+    pm = sym[:-len(".symtab.out")] + ".pretty_name_map.json"
+    out = []
+    try:
+        with open(pm) as f:
+            m = json.load(f)
+    except Exception:
+        return out
+    for mangled, pretty in m.items():
+        if not pretty or not mangled.startswith("_R"):
+            continue
+        if "::1::" in mangled or " " in mangled:
+            continue
+        for ty, fn, k in REC_PATTERNS:
+            if ty.search(pretty) and fn.search(pretty):
+                out.append("%s:%d" % (mangled, k))
+                break
+    return out
+
+
 def verify_one(meta, unwind, solver, timeout, rss_gb, keep_log_dir):
     """run the post-codegen pipeline for one harness -> result dict"""
     sym = meta["goto_file"]
@@ -215,6 +245,9 @@ def verify_one(meta, unwind, solver, timeout, rss_gb, keep_log_dir):
         cmd += ["--external-sat-solver", "kissat"]
     else:
         cmd += ["--sat-solver", "cadical"]
+    rl = recursion_limits(meta)
+    if rl:
+        cmd += ["--unwindset", ",".join(rl)]
     cmd += ["--slice-formula", out, "--verbosity", "8"]
     logp = os.path.join(keep_log_dir, re.sub(r"[^A-Za-z0-9_]", "_", meta["pretty_name"])[-150:] + ".cbmc.txt")
     rc, w, to = _run(cmd, timeout, rss_gb, out_path=logp)
